@@ -421,3 +421,288 @@ Proof.
       by (apply internal_tstate_dec_lb; reflexivity).
     destruct S2 as [-> | ->]; cbn; rewrite Hbeq; cbn; repeat split; try discriminate; exact T.
 Qed.
+
+(* ------------------------------------------------------------------ *)
+(* Part C: the network                                                  *)
+(* ------------------------------------------------------------------ *)
+Definition quid (u : Z) (l : list (comp * task)) : list (comp * task) :=
+  filter (fun p => t_uid (snd p) =? u) l.
+
+Lemma comp_eqb_eq a b : comp_eqb a b = true -> a = b.
+Proof. destruct a, b; simpl; intro H; try discriminate; reflexivity. Qed.
+
+Lemma take_spec l : forall n c B r, take n c l = (B, r) ->
+  (forall t, In t B -> In (c, t) l) /\ (forall p, In p r -> In p l) /\
+  (forall u, only u B = [] -> quid u r = quid u l) /\
+  (forall u, length (quid u l) = (length (only u B) + length (quid u r))%nat).
+Proof.
+  induction l as [|[d t] l IH]; intros n c B r H; simpl in H.
+  - injection H as <- <-. repeat split; intros; try contradiction; reflexivity.
+  - destruct n.
+    + injection H as <- <-. split; [intros; contradiction|]. split; [auto|]. split; reflexivity.
+    + destruct (comp_eqb d c) eqn:E.
+      * apply comp_eqb_eq in E. subst d.
+        destruct (take n c l) as [b r'] eqn:R. injection H as <- <-.
+        destruct (IH _ _ _ _ R) as (A & Bq & C & D). split; [|split; [|split]].
+        -- intros t' [<-|Ht]; [left; reflexivity|right; apply A; exact Ht].
+        -- intros p Hp. right. apply Bq. exact Hp.
+        -- intros u Hu. simpl in Hu. simpl. destruct (t_uid t =? u); [discriminate|]. apply C. exact Hu.
+        -- intro u. simpl. specialize (D u). destruct (t_uid t =? u); simpl; lia.
+      * destruct (take (S n) c l) as [b r'] eqn:R. injection H as <- <-.
+        destruct (IH _ _ _ _ R) as (A & Bq & C & D). split; [|split; [|split]].
+        -- intros t' Ht. right. apply A. exact Ht.
+        -- intros p [<-|Hp]; [left; reflexivity|right; apply Bq; exact Hp].
+        -- intros u Hu. simpl. rewrite (C u Hu). reflexivity.
+        -- intro u. simpl. specialize (D u). destruct (t_uid t =? u); simpl; lia.
+Qed.
+
+Lemma quid_app u a b : quid u (a ++ b) = quid u a ++ quid u b.
+Proof. apply filter_app. Qed.
+
+Lemma quid_pushes u es : quid u (pushes es) = pushes (proj u es).
+Proof.
+  induction es as [|e r IH]; simpl; [reflexivity|].
+  destruct e as [fl t|d t|v]; simpl.
+  - destruct (t_uid t =? u); simpl; exact IH.
+  - destruct (t_uid t =? u); simpl; rewrite IH; reflexivity.
+  - destruct (v =? u); simpl; exact IH.
+Qed.
+
+Lemma fin_sts_app u a b : fin_sts u (a ++ b) = fin_sts u a ++ fin_sts u b.
+Proof. unfold fin_sts, final_pubs. rewrite flat_map_app, map_app. reflexivity. Qed.
+
+Lemma fin_sts_proj u es : fin_sts u es = fin_sts u (proj u es).
+Proof.
+  unfold fin_sts. induction es as [|e r IH]; simpl; [reflexivity|].
+  destruct e as [fl t|d t|v]; simpl.
+  - destruct (t_uid t =? u) eqn:E; simpl.
+    + rewrite E. simpl. rewrite !map_app, IH. reflexivity.
+    + exact IH.
+  - destruct (t_uid t =? u); simpl; exact IH.
+  - destruct (v =? u); simpl; exact IH.
+Qed.
+
+Lemma truthful_mono t0 a b a' b' s :
+  (a = true -> a' = true) -> (b = true -> b' = true) ->
+  truthful t0 a b s = true -> truthful t0 a' b' s = true.
+Proof.
+  intros Ha Hb H. destruct s; unfold truthful in *; try assumption.
+  - apply orb_true_iff in H as [H|H]; [apply orb_true_iff in H as [H|H]|].
+    + rewrite (Hb H). reflexivity.
+    + rewrite H, orb_true_r. reflexivity.
+    + rewrite H. apply orb_true_r.
+  - apply orb_true_iff in H as [H|H]; [apply orb_true_iff in H as [H|H]|].
+    + rewrite (Ha H). reflexivity.
+    + rewrite H, orb_true_r. reflexivity.
+    + rewrite H. apply orb_true_r.
+Qed.
+
+Lemma NoDup_only B : (forall u, (length (only u B) <= 1)%nat) -> NoDup (map t_uid B).
+Proof.
+  induction B as [|a r IH]; intro H; simpl; constructor.
+  - intro Hin. specialize (H (t_uid a)). simpl in H. rewrite Z.eqb_refl in H. simpl in H.
+    apply in_map_iff in Hin as (x & Hx & Hin).
+    assert (In x (only (t_uid a) r)) by (apply filter_In; split; [exact Hin|apply Z.eqb_eq; exact Hx]).
+    destruct (only (t_uid a) r); [contradiction|simpl in H; lia].
+  - apply IH. intro u. specialize (H u). simpl in H. destruct (t_uid a =? u); simpl in H; lia.
+Qed.
+
+Lemma singleton_of {A} (l : list A) x : length l = 1%nat -> In x l -> l = [x].
+Proof. destruct l as [|y [|z r]]; simpl; intros H Hin; try discriminate. destruct Hin as [->|[]]. reflexivity. Qed.
+
+Lemma existsb_false {A} (f : A -> bool) l : (forall x, In x l -> f x = false) -> existsb f l = false.
+Proof. induction l; simpl; intro H; [reflexivity|]. rewrite H by (left; reflexivity). apply IHl. intros; apply H; right; assumption. Qed.
+
+Section Net.
+  Variable thr : nat.
+  Let P := mkP true thr.
+  Variable W : list task.
+  (* the workload as submitted; no task is bound to a pilot that is never added *)
+  Hypothesis Wfresh : forall t0, In t0 W ->
+    (exists u d f, t0 = fresh u d f) /\ bind_is PUnknown t0 = false.
+  Hypothesis Wnd : NoDup (map t_uid W).
+
+  (* no bulk-level fault at the tmgr scheduler (see one_truthful_final_refuted) *)
+  Definition calm (ev : event) : bool :=
+    match ev with EDeliver CTSched _ true => false | _ => true end.
+
+  Definition task_inv (evs : list event) (g : config) (t0 : task) : Prop :=
+    let u := t_uid t0 in
+    (exists c, quid u (toks g) = [(c, canon c t0)] /\ reach c t0 = true /\ fin_sts u (tr g) = [])
+    \/ (quid u (toks g) = [] /\ fin_sts u (tr g) <> [] /\
+        forallb (tstate_beq (hd T_NEW (fin_sts u (tr g)))) (fin_sts u (tr g)) = true /\
+        truthful t0 (ev_cancels u evs) (ev_bulkf evs) (hd T_NEW (fin_sts u (tr g))) = true).
+
+  Record inv (evs : list event) (g : config) : Prop := {
+    inv_tok : forall c t, In (c, t) (toks g) -> exists t0, In t0 W /\ t = canon c t0 /\ reach c t0 = true;
+    inv_task : forall t0, In t0 W -> task_inv evs g t0;
+    inv_cl : forall c u, zmem u (cls g c) = true -> ev_cancels u evs = true }.
+
+  Lemma quid_init t0 : In t0 W -> quid (t_uid t0) (map (fun t => (CTSched, t)) W) = [(CTSched, t0)].
+  Proof.
+    clear Wfresh. induction W as [|a r IH]; intro Hin; [contradiction|].
+    inversion Wnd as [|? ? Hna Hnr]; subst. simpl. destruct Hin as [->|Hin].
+    - rewrite Z.eqb_refl. f_equal.
+      assert (E : only (t_uid t0) r = []) by (apply only_nil_notin; exact Hna).
+      clear -E. induction r as [|b r IH]; simpl; [reflexivity|]. simpl in E.
+      destruct (t_uid b =? t_uid t0); [discriminate|]. apply IH. exact E.
+    - destruct (t_uid a =? t_uid t0) eqn:E.
+      + apply Z.eqb_eq in E. exfalso. apply Hna. rewrite E. apply in_map. exact Hin.
+      + apply IH; assumption.
+  Qed.
+
+  Lemma inv_init : inv [] (init W).
+  Proof.
+    constructor; simpl.
+    - intros c t Hin. apply in_map_iff in Hin as (t0 & E & Hin). injection E as <- <-.
+      exists t0. split; [exact Hin|]. split; [reflexivity|].
+      destruct (Wfresh t0 Hin) as [_ Hb]. unfold reach. cbv zeta. rewrite Hb. reflexivity.
+    - intros t0 Hin. left. exists CTSched. simpl. split; [apply quid_init; exact Hin|]. split; [|reflexivity].
+      destruct (Wfresh t0 Hin) as [_ Hb]. unfold reach. cbv zeta. rewrite Hb. reflexivity.
+    - intros; discriminate.
+  Qed.
+
+  Lemma ev_cancels_app u a b : ev_cancels u (a ++ b) = ev_cancels u a || ev_cancels u b.
+  Proof. apply existsb_app. Qed.
+  Lemma ev_bulkf_app a b : ev_bulkf (a ++ b) = ev_bulkf a || ev_bulkf b.
+  Proof. apply existsb_app. Qed.
+
+  Lemma task_inv_mono evs ev g t0 : task_inv evs g t0 -> task_inv (evs ++ [ev]) g t0.
+  Proof.
+    intros [H|(A & B & C & D)]; [left; exact H|right]. repeat split; try assumption.
+    eapply truthful_mono; [| |exact D].
+    - rewrite ev_cancels_app. intros ->. reflexivity.
+    - rewrite ev_bulkf_app. intros ->. reflexivity.
+  Qed.
+
+  Lemma canon_tout_noraise t0 : match to_cls (canon CTOut t0) with TORaise => false | _ => true end = true.
+  Proof.
+    unfold canon, exec_tok, to_cls. destruct (f_exec (t_f t0)); cbn;
+      repeat match goal with |- context [if ?b then _ else _] => destruct b end; reflexivity.
+  Qed.
+
+  Lemma inv_step evs g ev : calm ev = true -> inv evs g -> inv (evs ++ [ev]) (step P g ev).
+  Proof.
+    intros Hcalm [It Ik Ic]. destruct ev as [c n bf|c v].
+    2:{ (* a cancel request arrives *)
+      constructor; simpl.
+      - exact It.
+      - intros t0 Hin. apply (task_inv_mono evs (ECancel c v) (mkC (toks g) _ (tr g))). exact (Ik t0 Hin).
+      - intros d u Hm. rewrite ev_cancels_app. unfold upd in Hm. destruct (comp_eqb d c) eqn:E.
+        + clear -Hm Ic E. apply comp_eqb_eq in E. subst d.
+          assert (zmem u (cls g c) = true \/ v = u) as [K| ->].
+          { induction (cls g c) as [|x r IH]; simpl in *.
+            - rewrite orb_false_r in Hm. right. apply Z.eqb_eq. exact Hm.
+            - apply orb_true_iff in Hm as [Hm|Hm]; [left; rewrite Hm; reflexivity|].
+              destruct (IH Hm) as [K|K]; [left; rewrite K; apply orb_true_r|right; exact K]. }
+          * rewrite (Ic _ _ K). reflexivity.
+          * simpl. rewrite Z.eqb_refl. apply orb_true_r.
+        + rewrite (Ic _ _ Hm). reflexivity. }
+    (* a delivery *)
+    simpl. destruct (take n c (toks g)) as [B rest] eqn:Rt.
+    destruct (take_spec _ _ _ _ _ Rt) as (TB & Tr & Tn & Tl).
+    destruct (work_cb c P (cls g c) B bf) as [cl' es] eqn:Rw.
+    assert (Es : es = snd (work_cb c P (cls g c) B bf)) by (rewrite Rw; reflexivity).
+    assert (Ecl : forall u, zmem u cl' = true -> zmem u (cls g c) = true).
+    { unfold work_cb in Rw. destruct (intake (cls g c) B) as [[c1 K] e0] eqn:Ri.
+      destruct (worker c P bf K) as [e1 r1]. injection Rw as <- _.
+      destruct (intake_sub _ _ _ _ _ Ri) as (_ & _ & Hs). exact Hs. }
+    (* every uid occurs at most once among the queued tokens *)
+    assert (Hq1 : forall u, (length (quid u (toks g)) <= 1)%nat).
+    { intro u. destruct (in_dec Z.eq_dec u (map t_uid W)) as [Hin|Hnin].
+      - apply in_map_iff in Hin as (t0 & <- & Hin). destruct (Ik t0 Hin) as [(c0 & -> & _)|(-> & _)]; simpl; lia.
+      - destruct (quid u (toks g)) as [|[c0 t] r] eqn:Eq; [simpl; lia|].
+        assert (Hin : In (c0, t) (quid u (toks g))) by (rewrite Eq; left; reflexivity).
+        apply filter_In in Hin as [Hin Hu]. simpl in Hu. apply Z.eqb_eq in Hu.
+        destruct (It _ _ Hin) as (t0 & Hw & -> & _). rewrite canon_uid in Hu.
+        exfalso. apply Hnin. rewrite <- Hu. apply in_map. exact Hw. }
+    assert (Hnd : NoDup (map t_uid B)).
+    { apply NoDup_only. intro u. specialize (Tl u). specialize (Hq1 u). lia. }
+    (* no exception escapes the worker, except the bulk mkdir of tmgr stage-in *)
+    assert (Hraise : raises c P bf (kept (cls g c) B) = true -> bf = true /\ c = CTIn).
+    { intro Hr. destruct c; simpl in Hr; try discriminate.
+      - subst bf. discriminate.
+      - unfold ti_raises in Hr. destruct bf; [split; reflexivity|discriminate].
+      - exfalso. unfold to_raises in Hr. rewrite existsb_false in Hr; [discriminate|].
+        intros t Ht. unfold kept in Ht. destruct (intake (cls g CTOut) B) as [[c1 K] e0] eqn:Ri.
+        destruct (intake_sub _ _ _ _ _ Ri) as (Hk & _ & _). simpl in Ht.
+        destruct (It _ _ (TB _ (Hk _ Ht))) as (t0 & _ & -> & _).
+        pose proof (canon_tout_noraise t0) as Q. destruct (to_cls (canon CTOut t0)); try reflexivity; discriminate. }
+    (* what happens to one task of the workload *)
+    assert (Htask : forall t0, In t0 W ->
+              let u := t_uid t0 in
+              (only u B = [] /\ proj u es = [])
+              \/ (quid u (toks g) = [(c, canon c t0)] /\ quid u rest = [] /\ fin_sts u (tr g) = [] /\
+                  (handed_on c t0 (proj u es)
+                   \/ finished t0 (ev_cancels u evs) (ev_bulkf (evs ++ [EDeliver c n bf])) (proj u es)))).
+    { intros t0 Hin u. destruct (only u B) as [|tb Br] eqn:Eo.
+      - left. split; [reflexivity|]. rewrite Es. apply work_cb_silent; assumption.
+      - right.
+        assert (Hib : In tb B /\ t_uid tb = u).
+        { assert (In tb (only u B)) by (rewrite Eo; left; reflexivity).
+          apply filter_In in H as [H1 H2]. apply Z.eqb_eq in H2. split; assumption. }
+        destruct Hib as [Hib Hub].
+        pose proof (TB _ Hib) as Hil.
+        assert (Hiq : In (c, tb) (quid u (toks g))) by (apply filter_In; split; [exact Hil|simpl; apply Z.eqb_eq; exact Hub]).
+        destruct (Ik t0 Hin) as [(c0 & Eq & Hr & Hf)|(Eq & _)]; fold u in Eq; [|rewrite Eq in Hiq; contradiction].
+        fold u in Hf. rewrite Eq in Hiq. destruct Hiq as [Hiq|[]]. injection Hiq as E1 E2. subst c0. subst tb.
+        pose proof (Tl u) as L. rewrite Eq, Eo in L. simpl in L.
+        assert (Br = []) by (destruct Br; [reflexivity|simpl in L; lia]). subst Br.
+        assert (quid u rest = []) by (destruct (quid u rest); [reflexivity|simpl in L; lia]).
+        split; [exact Eq|]. split; [assumption|]. split; [exact Hf|].
+        rewrite Es, work_cb_proj by assumption. rewrite Eo.
+        destruct (Wfresh t0 Hin) as [(u0 & d & f & E0) _].
+        assert (u0 = u) by (subst t0; reflexivity). subst u0.
+        pose proof (single_step c thr u d f (zmem u (cls g c)) (raises c P bf (kept (cls g c) B))
+                      (ev_cancels u evs) (ev_bulkf (evs ++ [EDeliver c n bf]))) as SS.
+        cbv zeta in SS. rewrite <- E0 in SS. apply SS.
+        + exact Hr.
+        + intro Hm. exact (Ic _ _ Hm).
+        + intro Hrz. destruct (Hraise Hrz) as [-> ->]. split; [|reflexivity].
+          rewrite ev_bulkf_app. simpl. apply orb_true_r. }
+    constructor; simpl.
+    - (* every queued token is the canonical token of some task *)
+      intros d t Hin. apply in_app_or in Hin as [Hin|Hin]; [apply It; apply Tr; exact Hin|].
+      assert (Hq : In (d, t) (quid (t_uid t) (pushes es))) by (apply filter_In; split; [exact Hin|simpl; apply Z.eqb_refl]).
+      rewrite quid_pushes in Hq.
+      (* the pushing task is in the bulk *)
+      destruct (only (t_uid t) B) as [|tb Br] eqn:Eo.
+      { rewrite Es, work_cb_silent in Hq by assumption. contradiction. }
+      assert (Hib : In tb B /\ t_uid tb = t_uid t).
+      { assert (In tb (only (t_uid t) B)) by (rewrite Eo; left; reflexivity).
+        apply filter_In in H as [H1 H2]. apply Z.eqb_eq in H2. split; assumption. }
+      destruct Hib as [Hib Hub].
+      destruct (It _ _ (TB _ Hib)) as (t0 & Hw & Etb & _).
+      assert (Hu0 : t_uid t0 = t_uid t) by (rewrite <- Hub, Etb; symmetry; apply canon_uid).
+      destruct (Htask t0 Hw) as [[E1 _]|(_ & _ & _ & [Ho|Hf])]; rewrite Hu0 in *.
+      + rewrite E1 in Eo. discriminate.
+      + destruct Ho as (Hp & Hr & _). rewrite Hp in Hq. destruct Hq as [Hq|[]]. injection Hq as <- <-.
+        exists t0. repeat split; assumption.
+      + destruct Hf as (Hp & _). rewrite Hp in Hq. contradiction.
+    - (* every task *)
+      intros t0 Hin. unfold task_inv. simpl. set (u := t_uid t0).
+      rewrite quid_app, quid_pushes, fin_sts_app, (fin_sts_proj u es).
+      destruct (Htask t0 Hin) as [[E1 E2]|(Eq & Er & Hf & [Ho|Hfi])]; fold u in E1, E2 || fold u in Eq, Er, Hf.
+      + fold u in E1, E2. rewrite E2. simpl. rewrite !app_nil_r. rewrite (Tn u E1).
+        apply (task_inv_mono evs (EDeliver c n bf) g). exact (Ik t0 Hin).
+      + fold u in Ho. destruct Ho as (Hp & Hr & Hfs). fold u in Hfs. left. exists (next c).
+        rewrite Er, Hp, Hf, Hfs. simpl. repeat split; assumption.
+      + fold u in Hfi. destruct Hfi as (Hp & Hne & Hall & Htr). fold u in Hne, Hall, Htr. right.
+        rewrite Er, Hp, Hf. simpl. repeat split; try assumption.
+        eapply truthful_mono; [| |exact Htr].
+        * rewrite ev_cancels_app. intros ->. reflexivity.
+        * auto.
+    - (* cancel lists *)
+      intros d u Hm. rewrite ev_cancels_app. unfold upd in Hm. destruct (comp_eqb d c) eqn:E.
+      + apply comp_eqb_eq in E. subst d. rewrite (Ic _ _ (Ecl _ Hm)). reflexivity.
+      + rewrite (Ic _ _ Hm). reflexivity.
+  Qed.
+
+  Theorem inv_run evs : forallb calm evs = true -> inv evs (run P (init W) evs).
+  Proof.
+    induction evs as [|ev evs IH] using rev_ind; intro Hc; [apply inv_init|].
+    rewrite forallb_app in Hc. apply andb_true_iff in Hc as [Hc1 Hc2]. simpl in Hc2.
+    rewrite andb_true_r in Hc2. unfold run. rewrite fold_left_app. simpl.
+    apply inv_step; [exact Hc2|]. apply IH. exact Hc1.
+  Qed.
+End Net.
